@@ -428,8 +428,24 @@ let run_span fix =
       flush_line ()
     | _ -> flush_line ())
 
+let run_load () =
+  iter_lines (fun line ->
+    match String.split_on_char '|' line with
+    | [sp; files] when String.trim sp <> "skip" ->
+      let files = List.filter (fun x -> x <> "") (String.split_on_char ';' (String.trim files)) in
+      let keys = List.filter_map (fun f ->
+        let segs = List.map (fun seg -> List.init (String.length seg) (fun i -> n_of_int (Char.code seg.[i]))) (String.split_on_char '/' f) in
+        match Load.load_file segs with
+        | Some ((c, n), v) ->
+          let str l = String.init (List.length l) (fun i -> Char.chr (int_of_n (List.nth l i))) in
+          Some (str c ^ "/" ^ str n ^ "/" ^ str v)
+        | None -> None) files in
+      pr "%s" (String.concat "," (List.sort_uniq compare keys)); flush_line ()
+    | _ -> flush_line ())
+
 let () =
   match Sys.argv with
+  | [| _; "load" |] -> run_load ()
   | [| _; "span"; v |] -> run_span (v = "fixed")
   | [| _; "tok1"; dir; v |] -> run_tok1 dir (v = "fixed")
   | [| _; "ranges" |] -> run_ranges ()
